@@ -356,6 +356,9 @@ def _compress(obs):
 # find_atom_random_displ
 
 
+NB_ORDER = {1: [1], 2: [2, 1], 3: [2, 3, 1], 4: [3, 1, 4, 2]}
+
+
 def task_displ(seed):
     T = _T()
     out = []
@@ -366,7 +369,8 @@ def task_displ(seed):
 
         def run(c, nb=nb, n=n):
             pos = S.mat("p", n)
-            bonds = {0: [(j, S.real(f"L_0_{j}")) for j in range(1, n)]}
+            # the bond list is NOT in ascending atom order: "first three neighbours" means the first three of the list
+            bonds = {0: [(j, S.real(f"L_0_{j}")) for j in NB_ORDER[nb]]}
             draws = {"rand": [], "choice": [], "normal": []}
 
             class R:
@@ -410,12 +414,13 @@ def task_displ(seed):
         dt = [S.T(x) for x in d]
         P0 = [[z3.Real(f"p_{i}_{k}") for k in range(3)] for i in range(n)]
         cexb = lambda model, nb=nb: {"fn": "find_atom_random_displ", "nb": nb, "signature": f"nb{nb}"}
+        o_ = NB_ORDER[nb]
         if nb == 1:
-            perp = [("bond", spec.sub(P0[1], P0[0]))]
+            perp = [("bond", spec.sub(P0[o_[0]], P0[0]))]
         elif nb == 2:
-            perp = [("line_through_first_two_neighbours", spec.sub(P0[1], P0[2]))]
+            perp = [("line_through_first_two_neighbours", spec.sub(P0[o_[0]], P0[o_[1]]))]
         else:
-            perp = [("plane_first_three_neighbours_a", spec.sub(P0[1], P0[2])), ("plane_first_three_neighbours_b", spec.sub(P0[1], P0[3]))]
+            perp = [("plane_first_three_neighbours_a", spec.sub(P0[o_[0]], P0[o_[1]])), ("plane_first_three_neighbours_b", spec.sub(P0[o_[0]], P0[o_[2]]))]
         for nm, v in perp:
             out.append(discharge(f"{tag}/ensures.perpendicular_to_{nm}/{sid}", hy, spec.dot(dt, v) == 0,
                                  backends=("gb", "z3"), cex_builder=cexb, timeout_ms=20000))
@@ -429,7 +434,7 @@ def task_displ(seed):
                              backends=("z3",), cex_builder=cexb))
         # the width of the distribution is first-bond-length * sigma_scale (the draw is normal(0, sigma))
         okn = (len(draws["normal"]) == 1 and draws["normal"][0][1] == 0 and isinstance(draws["normal"][0][2], S.SymReal)
-               and z3.simplify(draws["normal"][0][2].t - z3.Real("L_0_1") * z3.Real("sigma")).eq(z3.RealVal(0)))
+               and z3.simplify(draws["normal"][0][2].t - z3.Real(f"L_0_{o_[0]}") * z3.Real("sigma")).eq(z3.RealVal(0)))
         out.append(ob(f"{tag}/callsite.module_drawn_normal(0, first_bond_length*sigma_scale)/{sid}", "discharged" if okn else "refuted",
                       engine="symrun", backend="callsite", cex=None if okn else {"fn": "find_atom_random_displ", "nb": nb, "signature": "sigma"}))
         out.append(core.must_fail(f"{tag}/guard.must-fail/{sid}", hy, dt[0] == 0))
@@ -514,7 +519,8 @@ def numeric_displ(nb, rng):
     T = _T()
     n = nb + 1
     pos = rng.normal(size=(n, 3))
-    bonds = {0: [(j, float(np.linalg.norm(pos[0] - pos[j]))) for j in range(1, n)]}
+    order = [int(x) for x in rng.permutation(np.arange(1, n))]          # neighbour lists in arbitrary order
+    bonds = {0: [(j, float(np.linalg.norm(pos[0] - pos[j]))) for j in order]}
     orig = pos.copy()
     d = T.find_atom_random_displ(pos, bonds, 0, sigma_scale=0.5)
     bad = []
@@ -524,11 +530,11 @@ def numeric_displ(nb, rng):
     if not np.array_equal(pos, orig):
         bad.append("input modified")
     if nb == 1:
-        vs = [pos[1] - pos[0]]
+        vs = [pos[order[0]] - pos[0]]
     elif nb == 2:
-        vs = [pos[1] - pos[2]]
+        vs = [pos[order[0]] - pos[order[1]]]
     else:
-        vs = [pos[1] - pos[2], pos[1] - pos[3]]
+        vs = [pos[order[0]] - pos[order[1]], pos[order[0]] - pos[order[2]]]
     for v in vs:
         if abs(float(np.dot(d, v))) > 1e-9 * max(1e-300, np.linalg.norm(d) * np.linalg.norm(v)) + 1e-15:
             bad.append(f"displacement not perpendicular: d.v = {float(np.dot(d, v))!r}")
